@@ -11,28 +11,26 @@ state is the plain product of the stored tensors (doc-string of canonical_form_f
 import numpy as np
 
 
-def stored(psi, n_sites=None):
-    """numpy copies of stored tensors [vL, p, vR], of the singular values on the bonds left of each site (+ the last
-    right one) and the forms, for sites 0..n_sites-1 (beyond L for infinite MPS)."""
-    n = psi.L if n_sites is None else n_sites
-    Bs, Ss, forms = [], [], []
-    for i in range(n):
+def stored(psi):
+    """numpy copies of the stored tensors [vL, p, vR], the singular values on the bond left of each site (+ the one
+    right of the last site) and the forms."""
+    Bs, Ss = [], []
+    for i in range(psi.L):
         B = psi.get_B(i, form=None)
         Bs.append(np.array(B.to_ndarray()).transpose([B.get_leg_index(l) for l in ('vL', 'p', 'vR')]))
         Ss.append(psi.get_SL(i))
-        forms.append(psi.form[i % psi.L])
-    Ss.append(psi.get_SR(n - 1))
-    return Bs, Ss, forms
+    Ss.append(psi.get_SR(psi.L - 1))
+    return Bs, Ss, list(psi.form)
 
 
 def _pow(S, e):
     return np.asarray(S, dtype=float) ** e
 
 
-def plain_matrices(psi, n_sites=None):
+def plain_matrices(psi):
     """Matrices N[i] (vL, p, vR) whose plain product is the denoted state (left bond factor absorbed into each site;
     the factor of the last right bond is returned separately)."""
-    Bs, Ss, forms = stored(psi, n_sites)
+    Bs, Ss, forms = stored(psi)
     n = len(Bs)
     if any(f is None for f in forms):
         return Bs, None
@@ -73,16 +71,6 @@ def undo_perm(T, sites, first_axis=0):
         inv = np.argsort(np.asarray(s.perm))
         T = np.take(T, inv, axis=first_axis + k)
     return T
-
-
-def vector(psi, undo_sort=False):
-    """Dense state vector of a finite MPS including psi.norm."""
-    T = theta(psi)
-    assert T.shape[0] == 1 and T.shape[-1] == 1
-    T = T[0, ..., 0]
-    if undo_sort:
-        T = undo_perm(T, psi.sites)
-    return psi.norm * T.reshape(-1)
 
 
 def schmidt(T, cut):
